@@ -124,7 +124,8 @@ def plan(tier, seed):
             variants.append((2, 2, 2))  # two successive common sessions, 2 operations each
             if tier != "quick":
                 variants.append((2, 3, 2))
-            variants = [(k, m, ns, ch) for k, m, ns in variants for ch in (False, True)]
+            variants = [(k, m, ns, ch) for k, m, ns in variants for ch in (False, True)
+                        if not (tier == "quick" and ns == 2 and ch and fam != "Buffered")]
             for k, maxops, nsess, childhandles in variants:
                 # childhandles: every object also retains a nested child obtained BEFORE the contexts
                 cfg = seq.Config(c, initial=(INIT[kind_],), objects=(0,) * k,
